@@ -4,4 +4,5 @@ let () =
   | [| _; "trigger" |] -> Trigger_mode.run ()
   | [| _; "shard" |] -> Shard_mode.run ()
   | [| _; "grow" |] -> Grow_mode.run ()
+  | [| _; "scenario" |] -> Scen_mode.run ()
   | _ -> prerr_endline "usage: kmodel <mode>"; exit 2
